@@ -28,7 +28,11 @@ Bad6 == <<34, 255, 255, 255, 255, 255, 255, 34>>
 BadT == <<34, 97, 226, 130, 34>>
 BadE == <<34, 192, 128, 254, 92, 110, 255, 255, 255, 34>>
 SigmaBadUtf == { <<123>>, <<125>>, <<91>>, <<93>>, <<58>>, <<44>>, Bad6, BadT, BadE, <<49>> }
-Sigma == CASE SigmaId = "full" -> SigmaFull [] SigmaId = "badutf" -> SigmaBadUtf [] SigmaId = "struct" -> SigmaStruct [] SigmaId = "token" -> SigmaToken [] OTHER -> SigmaTiny
+\* \u escapes: the opener "\u (always the first symbol), three hex digits, bytes that bit tricks mistake for hex digits
+\* (0x10 0x11 0x19 = '0' '1' '9' without bit 5; the neighbours g G @ ` : / of the digit and letter ranges), a second \u, the closing quote
+EscOpen == <<34, 92, 117>>
+SigmaEscape == { EscOpen, <<34>>, <<92, 117>>, <<48>>, <<70>>, <<100>>, <<103>>, <<71>>, <<64>>, <<96>>, <<58>>, <<47>>, <<16>>, <<17>>, <<25>> }
+Sigma == CASE SigmaId = "full" -> SigmaFull [] SigmaId = "escape" -> SigmaEscape [] SigmaId = "badutf" -> SigmaBadUtf [] SigmaId = "struct" -> SigmaStruct [] SigmaId = "token" -> SigmaToken [] OTHER -> SigmaTiny
 
 VARIABLES w, sc,
           k          \* number of symbols taken (MaxLen bounds symbols, not bytes)
@@ -39,6 +43,7 @@ SNext ==
   /\ sc.step # "Error"
   /\ k < MaxLen
   /\ \E sym \in Sigma :
+       /\ (SigmaId = "escape" /\ k = 0) => sym = EscOpen
        /\ k' = k + 1
        /\ w' = w \o sym
        /\ sc' = RunFrom(sc, sym)
@@ -76,7 +81,7 @@ TransducersOK ==
 (* Emission (direction A).                                                 *)
 (***************************************************************************)
 RootKind(v) == v.t
-Line(w2) ==
+Line(w2, dead) ==
   LET p  == ParseText(w2)
       v  == p.ok
   IN  [fam |-> "word", w |-> w2, valid |-> v, maxdepth |-> MaxDepth,
@@ -89,10 +94,11 @@ Line(w2) ==
        compactesc |-> IF v THEN Compact(w2, TRUE).out ELSE <<>>,
        indent |-> IF v THEN Indent(w2, <<>>, <<9>>).out ELSE <<>>,
        indentp |-> IF v THEN Indent(w2, <<62>>, <<32, 32>>).out ELSE <<>>,
-       htmlesc |-> HTMLEscape(w2) ]
+       htmlesc |-> HTMLEscape(w2),
+       dead |-> dead ]          \* the automaton is in its error state: by ErrorAbsorbs no continuation of w2 is accepted
 Emit ==
   IF EmitOn THEN
-    /\ (w = <<>> /\ w' = <<123>>) => PrintT(ToJson(Line(<<>>)))       \* the empty text, once
-    /\ PrintT(ToJson(Line(w')))
+    /\ (w = <<>> /\ w' = <<123>>) => PrintT(ToJson(Line(<<>>, FALSE)))       \* the empty text, once
+    /\ PrintT(ToJson(Line(w', sc'.step = "Error")))
   ELSE TRUE
 =============================================================================
